@@ -141,7 +141,8 @@ def launch_prefix(ignore_pipe=False, fsize=None):
     return [sigreset()] + (["-i"] if ignore_pipe else []) + (["-f", str(fsize)] if fsize is not None else [])
 
 
-def run(argv, stdin=b"", env=None, timeout=60, cwd=None, stdin_file=None, stdout_file=None, ignore_pipe=False, fsize=None):
+def run(argv, stdin=b"", env=None, timeout=60, cwd=None, stdin_file=None, stdout_file=None, ignore_pipe=False, fsize=None,
+        stderr_file=None):
     argv = launch_prefix(ignore_pipe, fsize) + list(argv)
     e = dict(os.environ)
     for k in list(e):
@@ -154,9 +155,10 @@ def run(argv, stdin=b"", env=None, timeout=60, cwd=None, stdin_file=None, stdout
     t0 = time.time()
     fin = open(stdin_file, "rb") if stdin_file else None
     fout = open(stdout_file, "wb") if stdout_file else None
+    ferr = open(stderr_file, "wb") if stderr_file else None
     try:
         p = subprocess.Popen(argv, stdin=fin if fin else subprocess.PIPE,
-                             stdout=fout if fout else subprocess.PIPE, stderr=subprocess.PIPE,
+                             stdout=fout if fout else subprocess.PIPE, stderr=ferr if ferr else subprocess.PIPE,
                              env=e, cwd=cwd, start_new_session=True)
         try:
             out, err = p.communicate(None if fin else stdin, timeout=timeout)
@@ -173,6 +175,8 @@ def run(argv, stdin=b"", env=None, timeout=60, cwd=None, stdin_file=None, stdout
             fin.close()
         if fout:
             fout.close()
+        if ferr:
+            ferr.close()
     return Run(p.returncode, out or b"", err or b"", to, time.time() - t0)
 
 
